@@ -153,6 +153,17 @@ fn wait_for_thread(x: int) -> int {
     while !thread_ok { time.sleep(0.002); }
     1
 }
+fn tag_count(key: str) -> int {
+    let o = new { ? };
+    o.set(key, 1);
+    o.keys().len()
+}
+fn shifted(n: int) -> int {
+    let r = 3..13;
+    r.start = r.start + n;
+    r.end = r.end + n;
+    r.start * 100 + r.end
+}
 fn prefix_len(n: int) -> int {
     let k = 0;
     for c in "homescript" {
@@ -358,7 +369,13 @@ func c16GenOp(s *simrt.Sim, m *c16Model, pfault int, force int) c16Op {
 			// handled by the caller: print fault / cancel fault on an ordinary op
 		}
 	}
-	switch pick(49, "op") {
+	switch pick(51, "op") {
+	case 49:
+		key := []string{"kitchen", "hallway", "garage", "k"}[pick(4, "arg")]
+		return c16Op{pure: true, reusable: true, fn: "tag_count", args: []value.Value{vStr(key)}, desc: fmt.Sprintf("tag_count(%q)", key), check: wantInt(1)}
+	case 50:
+		n := []int64{0, 1, 3, 10}[pick(4, "arg")]
+		return c16Op{pure: true, reusable: true, fn: "shifted", args: []value.Value{vInt(n)}, desc: fmt.Sprintf("shifted(%d)", n), check: wantInt((3+n)*100 + 13 + n)}
 	case 46, 47, 48:
 		// what a loop over a literal (or a global string) sees does not depend on how earlier calls left
 		// such a loop: the result of the same call is the same every time (judged against the first
